@@ -83,7 +83,7 @@ def main():
         if 'debug_diffs' in fs: obs = canon_impl_lines(obs, by, meta)
         for l in obs:
             p = l.split(' ', 2)
-            if len(p) >= 2 and p[1] in ('NSB', 'NSRB', 'BCB', 'BCRB', 'DWN', 'DWB', 'AWN', 'AWB', 'XWN', 'XWB'): continue     # wire observations exist only with both codecs (C14)
+            if len(p) >= 2 and p[1] in ('NSB', 'NSRB', 'BCB', 'BCRB', 'DWN', 'DWB', 'AWN', 'AWB', 'XWN', 'XWB', 'DON', 'DOB', 'AON', 'AOB', 'XON', 'XOB'): continue     # wire observations exist only with both codecs (C14)
             if len(p) == 3 and p[1] in ('D', 'DR'):
                 n = p[2][2:] if p[2].startswith('N=') else ('PANIC' if p[2] == 'PANIC' else str(len(O.split_entries(p[2]))))
                 norm.append(f"{p[0]} {p[1]} N={n}")
